@@ -684,6 +684,11 @@ func (c *Client) SetRootsProvider(provider RootsProvider) {
 
 // SendRootsListChangedNotification notifies server that roots changed.
 func (c *Client) SendRootsListChangedNotification(ctx context.Context) error {
+	// Like every other operation: nothing is sent before a successful handshake.
+	if !c.initialized {
+		return errors.ErrNotInitialized
+	}
+
 	// Create roots list changed notification.
 	notification := NewJSONRPCNotificationFromMap(MethodNotificationsRootsListChanged, nil)
 	return c.transport.sendNotification(ctx, notification)
